@@ -13,6 +13,7 @@ package main
 // recovered, and the chunks run in parallel.  A child that dies is itself a violation (with its stderr).
 
 import (
+	"errors"
 	"bytes"
 	"context"
 	"crypto/sha256"
@@ -222,8 +223,6 @@ func c16KnownID(entry, class, detail string, ft *c16Feat) string {
 	case ft.EmbeddedMethods && (strings.Contains(detail, "embedded type with methods not implemented") ||
 		(strings.Contains(detail, "interface conversion: ") && strings.Contains(detail, "*struct {"))):
 		return "P01-embedded-methods"
-	case ft.EmbeddedNonStruct && strings.Contains(detail, "reflect.StructOf: duplicate field"):
-		return "P13-flatten-embedded-nonstruct-name"
 	}
 	return ""
 }
@@ -838,7 +837,11 @@ func configOf[T any](w *c16Worker, ft *c16Feat, cs map[string]any) {
 	}
 	if r.Chance(60) {
 		c := tmpl
-		s, err := dflag.NewSetWithArgs(dflag.DefaultFlagNameConfig(), &c, nil)
+		var s *dflag.Set
+		var err error
+		if pn := catch(func() { s, err = dflag.NewSetWithArgs(dflag.DefaultFlagNameConfig(), &c, nil) }); pn != "" {
+			err = errors.New("panic (reported by the flag entry of this type): " + pn)
+		}
 		if err == nil {
 			s.Flags.SetOutput(io.Discard)
 			srcs = append(srcs, s)
@@ -859,7 +862,7 @@ func configOf[T any](w *c16Worker, ft *c16Feat, cs map[string]any) {
 }
 
 var c16Config = map[reflect.Type]func(*c16Worker, *c16Feat, map[string]any){
-	rt[C16Server](): configOf[C16Server], rt[C16Embed](): configOf[C16Embed], rt[C16Ptrs](): configOf[C16Ptrs], rt[C16Nested](): configOf[C16Nested], rt[C16Flat](): configOf[C16Flat], rt[C16Elems](): configOf[C16Elems],
+	rt[C16Server](): configOf[C16Server], rt[C16Embed](): configOf[C16Embed], rt[C16Ptrs](): configOf[C16Ptrs], rt[C16Nested](): configOf[C16Nested], rt[C16Flat](): configOf[C16Flat], rt[C16Elems](): configOf[C16Elems], rt[C16EmbEmb](): configOf[C16EmbEmb],
 }
 
 func (w *c16Worker) configCase(T reflect.Type, ft *c16Feat, cs map[string]any) {
